@@ -1,8 +1,508 @@
-//! C05 — not built yet.
+//! C05 — bytes put on a connection are always whole frames, never torn or interleaved.
+//!
+//! Scripted raw peers record the RAW bytes (TCP) / messages (WebSocket) written by six endpoints:
+//! repe::Client, repe::AsyncClient, repe::WebSocketClient, repe::Server, repe::AsyncServer,
+//! repe::websocket_server::WebSocketServer (responses and handler-pushed notifies), under up to 32
+//! concurrent writers, payload sizes straddling every internal buffer, peers that stall reading at
+//! seeded points, configured write timeouts, and calls aborted mid-send. After an interruption the
+//! peer drains and the harness issues FURTHER traffic on the same endpoint.
+//!
+//! Oracle (c05_oracle.rs): independent sequential walk of the recorded stream: it must be
+//! `frame* · optional strict prefix of ONE attempted frame` with nothing after the partial frame;
+//! every complete frame byte-equal to exactly one submitted message (body = f(token, offset));
+//! conservation (every send that reported success is on the wire exactly once); every WebSocket
+//! binary message exactly one complete frame.
+//!
+//! Stages: "main" (all lanes). An extra positional argument filters scenarios by name substring.
+
+#[cfg(not(feature = "net"))]
 use crate::common::*;
 
+#[cfg(not(feature = "net"))]
 pub fn run(args: &Args) -> Report {
-    let mut rep = Report::new(args, "c05-stub", "stub");
-    rep.inconclusive("check not implemented");
+    let mut rep = Report::new(args, "c05-needs-net", "socket endpoints are not built without the `net` feature");
+    rep.inconclusive("C05 needs real sockets (feature `net`); not runnable in this build");
     rep
 }
+
+#[cfg(feature = "net")]
+#[path = "c05_oracle.rs"]
+mod c05_oracle;
+#[cfg(feature = "net")]
+#[path = "c05_peers.rs"]
+mod c05_peers;
+#[cfg(feature = "net")]
+#[path = "c05_scen_cli.rs"]
+mod c05_scen_cli;
+#[cfg(feature = "net")]
+#[path = "c05_scen_srv.rs"]
+mod c05_scen_srv;
+
+#[cfg(feature = "net")]
+pub use imp::run;
+
+#[cfg(feature = "net")]
+mod imp {
+    use super::c05_oracle::{Book, Tail, walk};
+    use super::c05_peers::{End, Record, WsItem};
+    use super::{c05_scen_cli as cli, c05_scen_srv as srv};
+    use crate::common::*;
+    use serde_json::{Value, json};
+    use std::collections::{BTreeMap, HashMap};
+    use std::sync::Mutex;
+
+    pub struct Cx<'a> {
+        pub thorough: bool,
+        pub rt: &'a tokio::runtime::Runtime,
+        pub seed: u64,
+    }
+
+    /// What one connection of a scenario produced.
+    pub struct ConnOut {
+        pub label: String,
+        pub book: Book,
+        /// tokens whose send reported success (clients) / whose response is owed (healthy servers)
+        pub must_see: Vec<u64>,
+        pub record: Record,
+        pub end: End,
+        /// token of the message whose write the scenario interrupted on purpose (if any)
+        pub victim: Option<u64>,
+    }
+
+    pub struct ScenarioOut {
+        pub endpoint: &'static str,
+        /// fault injected: none | stall | write_timeout | cancel_mid_send
+        pub cause: &'static str,
+        pub name: String,
+        pub params: Value,
+        pub conns: Vec<ConnOut>,
+        /// Some(true/false): the injected interruption did / did not take effect (event evidence)
+        pub fault_triggered: Option<bool>,
+        pub trouble: Vec<String>,
+        pub ops_ok: u64,
+        pub ops_err: u64,
+        pub err_samples: Vec<String>,
+        pub further_ok: u64,
+        pub further_err: u64,
+        pub ident: u64,
+    }
+
+    impl ScenarioOut {
+        pub fn new(endpoint: &'static str, cause: &'static str, name: &str) -> ScenarioOut {
+            ScenarioOut {
+                endpoint,
+                cause,
+                name: name.to_string(),
+                params: json!({}),
+                conns: vec![],
+                fault_triggered: None,
+                trouble: vec![],
+                ops_ok: 0,
+                ops_err: 0,
+                err_samples: vec![],
+                further_ok: 0,
+                further_err: 0,
+                ident: 0,
+            }
+        }
+        pub fn note_result(&mut self, r: &Result<(), String>) {
+            match r {
+                Ok(()) => self.ops_ok += 1,
+                Err(e) => {
+                    self.ops_err += 1;
+                    if self.err_samples.len() < 4 {
+                        self.err_samples.push(trunc(e, 120));
+                    }
+                }
+            }
+        }
+    }
+
+    #[derive(Clone, Debug)]
+    pub struct Op {
+        pub token: u64,
+        pub notify: bool,
+        pub len: usize,
+    }
+
+    pub fn path_of(token: u64) -> String {
+        format!("/c05/{token:x}")
+    }
+
+    const EDGE: [usize; 27] = [
+        0, 1, 2, 47, 48, 49, 255, 256, 4095, 4096, 4097, 8143, 8144, 8145, 8190, 8191, 8192, 8193, 8194, 16383, 16384, 16385, 65535, 65536, 65537, 131072, 262143,
+    ];
+
+    /// Body length from classes straddling 0, the 8 KiB BufWriter capacity (body and whole frame),
+    /// 64 KiB, 1 MiB, 4 MiB (quick) / 32 MiB (thorough); bounded by the scenario byte budget.
+    pub fn pick_len(rng: &mut Rng, qlen: usize, left: &mut usize, thorough: bool) -> usize {
+        let c = rng.below(100);
+        let mut len = if c < 32 {
+            *rng.pick(&EDGE)
+        } else if c < 47 {
+            // whole frame (48 + query + body) lands on a buffer boundary ± 1
+            let t = *rng.pick(&[8191usize, 8192, 8193, 16384, 65536, 65537]);
+            t.saturating_sub(48 + qlen)
+        } else if c < 67 {
+            rng.usize_below(20_000)
+        } else if c < 82 {
+            65_536 + rng.usize_below(200_000)
+        } else if c < 93 {
+            (1 << 20) + rng.usize_below(3) - 1
+        } else if thorough && c >= 97 {
+            *rng.pick(&[(16usize << 20) + 1, 32 << 20, (32 << 20) - 1])
+        } else {
+            (4 << 20) + rng.usize_below(3) - 1
+        };
+        if len > *left {
+            len = *rng.pick(&EDGE[..19]);
+        }
+        *left = left.saturating_sub(len);
+        len
+    }
+
+    pub fn size_class(len: usize) -> u8 {
+        match len {
+            0 => 0,
+            1..=8000 => 1,
+            8001..=8400 => 2,
+            8401..=65000 => 3,
+            65001..=66000 => 4,
+            66001..=1_000_000 => 5,
+            1_000_001..=1_100_000 => 6,
+            1_100_001..=5_000_000 => 7,
+            _ => 8,
+        }
+    }
+
+    #[derive(Default)]
+    struct Tally {
+        counters: BTreeMap<String, u64>,
+        per_class: BTreeMap<String, (u64, u64, u64)>, // (run, fault triggered, failed-connection-as-required)
+        trouble: Vec<String>,
+        size_classes_seen: [u64; 9],
+        walls: Vec<(String, u64)>,
+    }
+
+    fn judge(rep: &mut Report, t: &mut Tally, cx: &Cx, lane: &str, idx: usize, out: ScenarioOut) {
+        rep.eval();
+        let class = format!("{}:{}", out.endpoint, out.cause);
+        let entry = t.per_class.entry(class.clone()).or_default();
+        entry.0 += 1;
+        if out.fault_triggered == Some(true) {
+            entry.1 += 1;
+        }
+        *t.counters.entry("ops_returned_ok".into()).or_default() += out.ops_ok;
+        *t.counters.entry("ops_returned_err".into()).or_default() += out.ops_err;
+        *t.counters.entry("further_ops_after_interruption_ok".into()).or_default() += out.further_ok;
+        *t.counters.entry("further_ops_after_interruption_err".into()).or_default() += out.further_err;
+        rep.distinct(&(out.endpoint, out.cause, out.ident));
+        let replay = json!({"seed": cx.seed, "tier": if cx.thorough {"thorough"} else {"quick"}, "lane": lane, "scenario_index": idx, "scenario": out.name, "params": out.params});
+        for tr in &out.trouble {
+            if t.trouble.len() < 30 {
+                t.trouble.push(format!("{}[{}]: {}", out.name, idx, trunc(tr, 200)));
+            }
+            *t.counters.entry("harness_trouble".into()).or_default() += 1;
+        }
+        if out.cause == "none" || out.cause == "stall" {
+            if out.ops_err > 0 {
+                // nothing was injected that may fail an operation: not a C05 verdict, but say so
+                if t.trouble.len() < 30 {
+                    t.trouble.push(format!("{}[{}]: {} operation(s) failed without an injected fault: {:?}", out.name, idx, out.ops_err, out.err_samples));
+                }
+                *t.counters.entry("unexpected_op_errors".into()).or_default() += out.ops_err;
+            }
+        }
+        let mut any_violation = false;
+        let mut conn_failed_as_required = false;
+        let nconns = out.conns.len();
+        for c in out.conns {
+            let sig = |class: &str| format!("C05:{class}:{}:{}", out.endpoint, out.cause);
+            let mut seen_tokens: HashMap<u64, usize> = HashMap::new();
+            let mut tail_token: Option<u64> = None;
+            let mut tail_desc = String::new();
+            let mut viol = None;
+            match &c.record {
+                Record::Stream(bytes) => {
+                    *t.counters.entry("tcp_bytes_recorded".into()).or_default() += bytes.len() as u64;
+                    let w = walk(bytes, &c.book);
+                    *t.counters.entry("frames_verified_byte_exact".into()).or_default() += w.seen.len() as u64;
+                    for s in &w.seen {
+                        *seen_tokens.entry(s.token).or_default() += 1;
+                        t.size_classes_seen[size_class(s.len.saturating_sub(60)) as usize] += 1;
+                    }
+                    if let Tail::Partial { at, have, need, token } = &w.tail {
+                        *t.counters.entry("streams_ending_in_a_partial_frame".into()).or_default() += 1;
+                        tail_token = *token;
+                        tail_desc = format!("stream ends at offset {} inside a frame: {have} of {need:?} bytes (token {token:?})", at + have);
+                        if out.cause == "none" || out.cause == "stall" {
+                            // no interruption was injected; only a conservation failure below makes this a verdict
+                            *t.counters.entry("partial_tail_without_injected_fault".into()).or_default() += 1;
+                        }
+                    }
+                    viol = w.viol.map(|v| (v.class.to_string(), v.detail));
+                }
+                Record::Msgs(items) => {
+                    for (i, it) in items.iter().enumerate() {
+                        match it {
+                            WsItem::Other(d) => {
+                                viol = Some(("ws-non-binary-message".to_string(), format!("message #{i} is not binary: {d}")));
+                                break;
+                            }
+                            WsItem::Bin(p) => {
+                                *t.counters.entry("ws_messages_recorded".into()).or_default() += 1;
+                                *t.counters.entry("ws_payload_bytes_recorded".into()).or_default() += p.len() as u64;
+                                let w = walk(p, &c.book);
+                                if let Some(v) = w.viol {
+                                    viol = Some((format!("ws-message-{}", v.class), format!("binary message #{i} ({} bytes): {}", p.len(), v.detail)));
+                                    break;
+                                }
+                                if w.seen.len() != 1 || !matches!(w.tail, Tail::Clean) {
+                                    viol = Some((
+                                        "ws-message-not-one-frame".to_string(),
+                                        format!("binary message #{i} ({} bytes) holds {} complete frame(s) and tail {:?}; it must be exactly one complete frame", p.len(), w.seen.len(), w.tail),
+                                    ));
+                                    break;
+                                }
+                                *t.counters.entry("frames_verified_byte_exact".into()).or_default() += 1;
+                                *seen_tokens.entry(w.seen[0].token).or_default() += 1;
+                                t.size_classes_seen[size_class(p.len().saturating_sub(60)) as usize] += 1;
+                            }
+                        }
+                    }
+                }
+            }
+            if let Some((class, detail)) = viol {
+                any_violation = true;
+                rep.violation(sig(&class), format!("[{} / {}] {detail}; peer recording ended with {:?}", out.name, c.label, c.end), replay.clone());
+                continue;
+            }
+            if let Some((tok, n)) = seen_tokens.iter().find(|(_, n)| **n > 1) {
+                any_violation = true;
+                rep.violation(sig("duplicate-frame"), format!("[{} / {}] message token {tok:#x} is on the wire {n} times", out.name, c.label), replay.clone());
+                continue;
+            }
+            // conservation: every send that reported success must be on the wire, whole
+            let missing: Vec<u64> = c.must_see.iter().copied().filter(|tk| !seen_tokens.contains_key(tk)).collect();
+            *t.counters.entry("sends_reported_success".into()).or_default() += c.must_see.len() as u64;
+            *t.counters.entry("frames_of_failed_or_interrupted_sends_still_whole_on_wire".into()).or_default() +=
+                seen_tokens.keys().filter(|k| !c.must_see.contains(k)).count() as u64;
+            if !missing.is_empty() {
+                if c.end.clean() {
+                    any_violation = true;
+                    let m0 = missing[0];
+                    let what = c.book.by_query.values().chain(c.book.by_id.values()).find(|e| e.token == m0).map(|e| format!("{} ({} body bytes)", e.kind, e.body_len)).unwrap_or_default();
+                    rep.violation(
+                        sig("lost-frame"),
+                        format!(
+                            "[{} / {}] {} send(s) reported success but their frames are not whole on the wire, first token {m0:#x} {what}{}; {}; recording ended with {:?} after {} verified frames",
+                            out.name,
+                            c.label,
+                            missing.len(),
+                            if tail_token == Some(m0) { " (it is the partial frame at the end of the stream)" } else { "" },
+                            if tail_desc.is_empty() { "stream ends on a frame boundary".to_string() } else { tail_desc.clone() },
+                            c.end,
+                            seen_tokens.len()
+                        ),
+                        replay.clone(),
+                    );
+                } else {
+                    *t.counters.entry("conservation_unchecked_recording_ended_abnormally".into()).or_default() += 1;
+                    if t.trouble.len() < 30 {
+                        t.trouble.push(format!("{}[{}] {}: conservation not decided, recording ended with {:?}", out.name, idx, c.label, c.end));
+                    }
+                }
+            }
+            if out.fault_triggered == Some(true) && c.victim.is_some() && !seen_tokens.contains_key(&c.victim.unwrap()) && nconns == 1 {
+                // legal outcome: the interrupted frame is the (possibly empty) tail and nothing follows
+                conn_failed_as_required = true;
+            }
+        }
+        if any_violation {
+            *t.counters.entry("scenarios_with_violation".into()).or_default() += 1;
+        } else {
+            *t.counters.entry("scenarios_clean".into()).or_default() += 1;
+            if conn_failed_as_required {
+                t.per_class.get_mut(&class).unwrap().2 += 1;
+            }
+        }
+    }
+
+    struct Lane {
+        name: &'static str,
+        scenarios: Vec<(&'static str, Box<dyn Fn(&Cx, &mut Rng) -> ScenarioOut + Send + Sync>)>,
+    }
+
+    fn lanes() -> Vec<Lane> {
+        use cli::AKind::*;
+        use srv::{Mode, SrvKind};
+        macro_rules! sc {
+            ($n:expr, |$c:ident, $r:ident| $e:expr) => {
+                ($n, Box::new(|$c: &Cx, $r: &mut Rng| -> ScenarioOut { $e }) as Box<dyn Fn(&Cx, &mut Rng) -> ScenarioOut + Send + Sync>)
+            };
+        }
+        vec![
+            Lane {
+                name: "blocking",
+                scenarios: vec![
+                    sc!("client.healthy.32writers", |c, r| cli::client_concurrent(c, r, false, Some(32))),
+                    sc!("client.write_timeout.a", |c, r| cli::client_write_timeout(c, r)),
+                    sc!("server.healthy.a", |c, r| srv::tcp_server(c, r, SrvKind::Blocking, Mode::Healthy)),
+                    sc!("client.stall.a", |c, r| cli::client_concurrent(c, r, true, None)),
+                    sc!("server.write_timeout.a", |c, r| srv::tcp_server(c, r, SrvKind::Blocking, Mode::WriteTimeout)),
+                    sc!("client.healthy.b", |c, r| cli::client_concurrent(c, r, false, None)),
+                    sc!("server.stall.a", |c, r| srv::tcp_server(c, r, SrvKind::Blocking, Mode::Stall)),
+                    sc!("client.write_timeout.b", |c, r| cli::client_write_timeout(c, r)),
+                    sc!("server.healthy.b", |c, r| srv::tcp_server(c, r, SrvKind::Blocking, Mode::Healthy)),
+                    sc!("client.stall.b", |c, r| cli::client_concurrent(c, r, true, None)),
+                    sc!("server.write_timeout.b", |c, r| srv::tcp_server(c, r, SrvKind::Blocking, Mode::WriteTimeout)),
+                ],
+            },
+            Lane {
+                name: "async",
+                scenarios: vec![
+                    sc!("async_client.healthy.32writers", |c, r| cli::aclient_concurrent(c, r, Tcp, false, Some(32))),
+                    sc!("async_client.cancel.a", |c, r| cli::aclient_cancel(c, r, Tcp)),
+                    sc!("async_server.healthy.a", |c, r| srv::tcp_server(c, r, SrvKind::Async, Mode::Healthy)),
+                    sc!("async_client.stall.a", |c, r| cli::aclient_concurrent(c, r, Tcp, true, None)),
+                    sc!("async_server.write_timeout.a", |c, r| srv::tcp_server(c, r, SrvKind::Async, Mode::WriteTimeout)),
+                    sc!("async_client.healthy.b", |c, r| cli::aclient_concurrent(c, r, Tcp, false, None)),
+                    sc!("async_server.stall.a", |c, r| srv::tcp_server(c, r, SrvKind::Async, Mode::Stall)),
+                    sc!("async_client.cancel.b", |c, r| cli::aclient_cancel(c, r, Tcp)),
+                    sc!("async_server.healthy.b", |c, r| srv::tcp_server(c, r, SrvKind::Async, Mode::Healthy)),
+                    sc!("async_client.stall.b", |c, r| cli::aclient_concurrent(c, r, Tcp, true, None)),
+                    sc!("async_server.write_timeout.b", |c, r| srv::tcp_server(c, r, SrvKind::Async, Mode::WriteTimeout)),
+                ],
+            },
+            Lane {
+                name: "websocket",
+                scenarios: vec![
+                    sc!("ws_client.healthy.32writers", |c, r| cli::aclient_concurrent(c, r, Ws, false, Some(32))),
+                    sc!("ws_server.healthy.offreader", |c, r| srv::ws_server(c, r, false, true)),
+                    sc!("ws_client.cancel.a", |c, r| cli::aclient_cancel(c, r, Ws)),
+                    sc!("ws_server.stall.offreader", |c, r| srv::ws_server(c, r, true, true)),
+                    sc!("ws_client.stall.a", |c, r| cli::aclient_concurrent(c, r, Ws, true, None)),
+                    sc!("ws_server.healthy.inline", |c, r| srv::ws_server(c, r, false, false)),
+                    sc!("ws_client.cancel.b", |c, r| cli::aclient_cancel(c, r, Ws)),
+                    sc!("ws_server.stall.inline", |c, r| srv::ws_server(c, r, true, false)),
+                    sc!("ws_client.healthy.b", |c, r| cli::aclient_concurrent(c, r, Ws, false, None)),
+                ],
+            },
+        ]
+    }
+
+    pub fn run(args: &Args) -> Report {
+        let rep = Report::new(
+            args,
+            "c05-raw-peer-recording",
+            "raw peers record every byte written by Client / AsyncClient / WebSocketClient / Server / AsyncServer / WebSocketServer under \
+             concurrent writers (<=32), sizes straddling 0, 8 KiB±1 (body and whole frame), 64 KiB, 1 MiB, 4 MiB (32 MiB thorough), seeded reader \
+             stalls with small socket buffers, write timeouts, calls aborted mid-send, then FURTHER traffic after the peer drained; oracle = \
+             sequential walk: frame* · optional strict prefix of one frame with nothing after it, each frame byte-equal to one submitted \
+             message (body = f(token, offset)), conservation, one frame per WebSocket message; distinct = (endpoint, fault, workload shape hash)",
+        );
+        let rep = Mutex::new(rep);
+        let tally = Mutex::new(Tally::default());
+        let hb = Heartbeat::start();
+        let rt = match tokio::runtime::Builder::new_multi_thread().worker_threads(6).enable_all().build() {
+            Ok(rt) => rt,
+            Err(e) => {
+                let mut r = rep.into_inner().unwrap();
+                r.inconclusive(format!("tokio runtime: {e}"));
+                return r;
+            }
+        };
+        let cx = Cx { thorough: args.thorough(), rt: &rt, seed: args.seed };
+        let rounds = args.budget(3, 40) as usize;
+        let filter: Option<String> = args.extra.first().cloned();
+        let wall_cap = std::time::Duration::from_secs(if args.thorough() { 420 } else { 40 });
+        let started = std::time::Instant::now();
+        std::thread::scope(|s| {
+            for (li, lane) in lanes().into_iter().enumerate() {
+                let (rep, tally, cx, filter) = (&rep, &tally, &cx, &filter);
+                s.spawn(move || {
+                    let mut rng = Rng::new(args.seed ^ 0xC05 ^ ((li as u64 + 1) << 40));
+                    let mut idx = 0usize;
+                    for round in 0..rounds {
+                        for (name, f) in &lane.scenarios {
+                            let mut r = rng.fork((round * 100 + idx) as u64);
+                            idx += 1;
+                            if let Some(flt) = filter {
+                                if !name.contains(flt.as_str()) {
+                                    continue;
+                                }
+                            }
+                            if started.elapsed() > wall_cap {
+                                tally.lock().unwrap().counters.entry("scenarios_skipped_wall_cap".into()).and_modify(|x| *x += 1).or_insert(1);
+                                continue;
+                            }
+                            let t_sc = std::time::Instant::now();
+                            let out = match catching(|| f(cx, &mut r)) {
+                                Ok(o) => o,
+                                Err(p) => {
+                                    let mut o = ScenarioOut::new("harness", "none", name);
+                                    o.trouble.push(format!("scenario panicked: {p}"));
+                                    o
+                                }
+                            };
+                            if std::env::var_os("C05_DEBUG").is_some() {
+                                eprintln!("[c05] {} {}ms fault={:?} ok={} err={} trouble={:?} params={}", out.name, t_sc.elapsed().as_millis(), out.fault_triggered, out.ops_ok, out.ops_err, out.trouble, out.params);
+                            }
+                            let mut rp = rep.lock().unwrap();
+                            let mut tl = tally.lock().unwrap();
+                            tl.walls.push((format!("{}#{}", name, idx - 1), t_sc.elapsed().as_millis() as u64));
+                            if rp.samples.len() < 6 && (idx % 4 == 1) {
+                                rp.sample(json!({"lane": lane.name, "scenario": out.name, "endpoint": out.endpoint, "fault": out.cause, "params": out.params,
+                                    "ops_ok": out.ops_ok, "ops_err": out.ops_err, "fault_triggered": out.fault_triggered,
+                                    "recorded": out.conns.iter().map(|c| match &c.record { Record::Stream(b) => b.len(), Record::Msgs(m) => m.len() }).collect::<Vec<_>>()}));
+                            }
+                            judge(&mut rp, &mut tl, cx, lane.name, idx - 1, out);
+                        }
+                    }
+                });
+            }
+        });
+        drop(cx);
+        rt.shutdown_timeout(std::time::Duration::from_secs(2));
+        let mut rep = rep.into_inner().unwrap();
+        let t = tally.into_inner().unwrap();
+        for (k, v) in &t.counters {
+            rep.set(k, json!(v));
+        }
+        let mut classes = serde_json::Map::new();
+        for (k, (run, trig, failed_ok)) in &t.per_class {
+            classes.insert(k.clone(), json!({"scenarios": run, "interruption_took_effect": trig, "connection_failed_with_nothing_after_partial_frame": failed_ok}));
+        }
+        rep.set("per_endpoint_and_fault", Value::Object(classes));
+        rep.set("verified_frames_by_size_class_[0,<8000,~8KiB,<64KiB,~64KiB,<1MiB,~1MiB,<=4MiB,>4MiB]", json!(t.size_classes_seen));
+        rep.set("harness_trouble_notes", json!(t.trouble));
+        rep.set("scenario_wall_ms", json!(t.walls));
+        rep.set("heartbeat_max_gap_ms", json!(hb.max_gap_ms()));
+        // evidence floor: every endpoint observed, every injected fault class took effect at least once
+        if filter.is_none() {
+            for ep in ["client", "async_client", "ws_client", "server", "async_server", "ws_server"] {
+                let n: u64 = t.per_class.iter().filter(|(k, _)| k.split(':').next() == Some(ep)).map(|(_, v)| v.0).sum();
+                if n == 0 {
+                    rep.inconclusive(format!("endpoint {ep} was never exercised"));
+                }
+            }
+            for (k, (run, trig, _)) in &t.per_class {
+                let cause = k.split(':').nth(1).unwrap_or("");
+                if (cause == "write_timeout" || cause == "cancel_mid_send") && *run > 0 && *trig == 0 {
+                    rep.inconclusive(format!("{k}: the injected interruption never took effect in {run} scenario(s)"));
+                }
+            }
+        }
+        if rep.get_count("frames_verified_byte_exact") == 0 {
+            rep.inconclusive("no frame was recorded");
+        }
+        let troubled = rep.get_count("harness_trouble");
+        if troubled * 4 > rep.evaluations.max(1) {
+            rep.inconclusive(format!("{troubled} harness troubles in {} scenarios (see harness_trouble_notes)", rep.evaluations));
+        }
+        rep
+    }
+}
+
+#[cfg(feature = "net")]
+pub use imp::{ConnOut, Cx, Op, ScenarioOut, path_of, pick_len, size_class};
